@@ -21,6 +21,7 @@ type alEnv struct {
 	P *Program
 	// memo: does fn return an alias of its i-th parameter?
 	retAlias map[string]bool
+	retIdx   map[string]map[int]bool
 	busy     map[string]bool
 	reports  map[string]string // key -> violation text ("" = fine)
 	pos      map[string]string
@@ -28,6 +29,7 @@ type alEnv struct {
 
 type alResult struct {
 	returnsAlias bool
+	results      map[int]bool // result positions an alias is returned in
 }
 
 // analyse propagates "aliases the block buffer" from the seed values inside
@@ -38,7 +40,7 @@ func (e *alEnv) analyse(fn *ssa.Function, seeds []ssa.Value, why string) alResul
 	holder := map[*ssa.Alloc]bool{} // locals holding an alias
 	var work []ssa.Value
 	mark := func(v ssa.Value) {
-		if v != nil && !tainted[v] {
+		if v != nil && !tainted[v] && canHoldView(v.Type()) {
 			tainted[v] = true
 			work = append(work, v)
 		}
@@ -97,6 +99,20 @@ func (e *alEnv) analyse(fn *ssa.Function, seeds []ssa.Value, why string) alResul
 				}
 			case *ssa.BinOp, *ssa.If:
 			case *ssa.Extract:
+				// one result of a module function: only the results the callee lets an alias of its argument out through
+				if call, isCall := x.Tuple.(*ssa.Call); isCall {
+					if callee := call.Call.StaticCallee(); callee != nil && P.isModuleFunc(callee) && callee.Blocks != nil {
+						out := false
+						for i, a := range call.Call.Args {
+							if tainted[a] && i < len(callee.Params) && e.paramAliasResults(callee, i)[x.Index] {
+								out = true
+							}
+						}
+						if !out {
+							continue
+						}
+					}
+				}
 				mark(x)
 			case *ssa.Store:
 				if x.Val == v {
@@ -138,6 +154,14 @@ func (e *alEnv) analyse(fn *ssa.Function, seeds []ssa.Value, why string) alResul
 				}
 			case *ssa.Return:
 				res.returnsAlias = true
+				if res.results == nil {
+					res.results = map[int]bool{}
+				}
+				for i, rv := range x.Results {
+					if rv == v {
+						res.results[i] = true
+					}
+				}
 			case ssa.CallInstruction:
 				cc := x.Common()
 				if bi, ok := cc.Value.(*ssa.Builtin); ok {
@@ -256,7 +280,44 @@ func (e *alEnv) paramAliasReturned(fn *ssa.Function, i int) bool {
 	defer delete(e.busy, key)
 	r := e.analyse(fn, []ssa.Value{fn.Params[i]}, "parameter "+fn.Params[i].Name()+" of "+fnKey(fn))
 	e.retAlias[key] = r.returnsAlias
+	if e.retIdx == nil {
+		e.retIdx = map[string]map[int]bool{}
+	}
+	e.retIdx[key] = r.results
 	return r.returnsAlias
+}
+
+// paramAliasResults: the result positions through which fn returns an alias of its i-th parameter.
+func (e *alEnv) paramAliasResults(fn *ssa.Function, i int) map[int]bool {
+	if !e.paramAliasReturned(fn, i) {
+		return nil
+	}
+	return e.retIdx[fmt.Sprintf("%s#%d", fnKey(fn), i)]
+}
+
+// canHoldView: a value of this type can carry a reference to the buffer's bytes.
+func canHoldView(t types.Type) bool {
+	switch u := t.Underlying().(type) {
+	case *types.Basic:
+		return u.Info()&types.IsString != 0 || u.Kind() == types.UnsafePointer || u.Kind() == types.UntypedNil || u.Kind() == types.Uintptr
+	case *types.Struct:
+		for i := 0; i < u.NumFields(); i++ {
+			if canHoldView(u.Field(i).Type()) {
+				return true
+			}
+		}
+		return false
+	case *types.Array:
+		return canHoldView(u.Elem())
+	case *types.Tuple:
+		for i := 0; i < u.Len(); i++ {
+			if canHoldView(u.At(i).Type()) {
+				return true
+			}
+		}
+		return false
+	}
+	return true
 }
 
 func ruleALBuf(c *Ctx) {
